@@ -373,6 +373,12 @@ fn run_script(script: &[&str]) {
                     handles.clear();
                     drop(cache.take());
                 }
+                "dropcache2" => {
+                    // the other order: the last cache handle goes first, the entry handles the application still holds
+                    // keep the cache's inner alive until the last of them is dropped
+                    drop(cache.take());
+                    handles.clear();
+                }
                 _ => panic!("unknown op {name}"),
             }
             ret
@@ -393,7 +399,7 @@ fn run_script(script: &[&str]) {
                 evs.sort_by_key(|e| shard_of(e.1));
                 pipes.sort_by_key(|p| shard_of(p.0));
             }
-            "clear" | "dropcache" => {
+            "clear" | "dropcache" | "dropcache2" => {
                 // hash-map drain order
                 evs.sort();
                 pipes.sort();
